@@ -157,10 +157,12 @@ func lemma_deps_rdeps_inverse(g *DirectedTargetGraph, n, d model.BuildNode) ([]m
 //@ func (*Walker).Walk$1() ()
 //@   captured_requires [done_is_open] !chanclosed(done)
 
+// (ctx#1 in the clauses below is the walk's own variable ctx, i.e. the context derived with WithCancel; a bare parameter
+// name in a postcondition denotes the caller's argument)
 //@ func (*Walker).Walk(w, ctx) (m, err)
 //@   note exclusive w
 //@   ensures [waits_for_exactly_the_started_routines] wgAdds - old(wgAdds) == nodeRoutineSpawns - old(nodeRoutineSpawns)
-//@   ensures [cancellation_returns_without_waiting_for_routines] !(received(doneCh(ctx)) && received(done))
+//@   ensures [cancellation_returns_without_waiting_for_routines] !(received(doneCh(ctx#1)) && received(done))
 //@   requires [graph] nodesWF(w.graph) && absEdges(w.graph) && absOutEdges(w.graph) && endpointsAreNodes(w.graph) && w.completions != nil && w.nodeInfoMap != nil
 //@ loop #1
 //@   invariant [nothing_counted_yet] wgAdds == old(wgAdds) && nodeRoutineSpawns == old(nodeRoutineSpawns)
